@@ -7,7 +7,7 @@ import ast
 from collections import namedtuple
 
 from sa.core import rule
-from sa.ir import norm, call_name, recv_text, names_in, calls_in_order, AnalysisError, walk_local, dotted
+from sa.ir import sig_body, norm, call_name, recv_text, names_in, calls_in_order, AnalysisError, walk_local, dotted
 from sa.sai import Domain, Interp, St, FALL, RAISE
 
 U = namedtuple("U", "pending satset last verified model asserted hard_unsat acc sorted_soft flags")
@@ -290,7 +290,7 @@ class SPDom(Domain):
 
 
 def _is_getter(f):
-    body = [b for b in f.node.body if not (isinstance(b, ast.Expr) and isinstance(b.value, ast.Constant))]
+    body = sig_body(f.node)
     return (len(body) == 1 and isinstance(body[0], ast.Return) and isinstance(body[0].value, ast.Attribute)
             and isinstance(body[0].value.value, ast.Name) and body[0].value.value.id == "self")
 
